@@ -305,3 +305,17 @@ package vals
 //@   ensures [float-unchanged] istype(n, float64) ==> result === n.(float64)
 //@   ensures [rational-nearest-double] istype(n, *big.Rat) ==> result === ratfloat(n.(*big.Rat))
 //@   ensures [huge-integer-overflows-by-sign] istype(n, *big.Int) && (bigval(n.(*big.Int)) > MaxInt64 || bigval(n.(*big.Int)) < MinInt64) ==> isinf(result) && (result > tofloat(0)) == (bigval(n.(*big.Int)) > 0)
+
+// ---------------------------------------------------------------------------
+// C05: printing a float64. All digits come from strconv.FormatFloat(f, fmt, -1,
+// 64) - the shortest digits that parse back to f (trusted stdlib contract) - in
+// plain form, or in scientific form for very large/small magnitudes; the only
+// edit is appending ".0" to a finite plain form without a point, so that the text
+// is read back as an inexact number and not as an exact integer.
+//@ func formatFloat64
+//@   props C05
+//@   log strconv.FormatFloat
+//@   exit [digits-are-the-shortest-round-trip-digits-of-f] ncalls >= 1 && ncalls <= 2 && (forall k int :: 0 <= k && k < ncalls ==> callis(k, "strconv.FormatFloat") && callarg(k).(float64) === f && callarg2(k).(int) == 0 - 1)
+//@   exit [plain-first-scientific-second] callarg1(0).(byte) == 'f' && (ncalls == 2 ==> callarg1(1).(byte) == 'e' && result === callres(1).(string))
+//@   exit [plain-form-kept-or-given-a-point] ncalls == 1 ==> (len(result) == len(callres(0).(string)) || len(result) == len(callres(0).(string)) + 2) && (forall k int :: 0 <= k && k < len(callres(0).(string)) ==> result[k] == callres(0).(string)[k])
+//@   exit [point-appended-only-to-finite-numbers] ncalls == 1 && len(result) == len(callres(0).(string)) + 2 ==> result[len(result) - 2] == '.' && result[len(result) - 1] == '0' && !isnan(f) && !isinf(f)
